@@ -155,7 +155,8 @@ func (j *jsonWriter) ByteString(tag int, str []byte) {
 func (j *jsonWriter) DateTime(tag int, date time.Time) {
 	j.encodeAppend(TypeDateTime, tag, func(b []byte) []byte {
 		b = append(b, '"')
-		b = date.AppendFormat(b, time.RFC3339)
+		// Written in UTC: in a zone ahead of UTC the last hours of year 9999 would carry the year 10000, which no reader accepts.
+		b = date.UTC().AppendFormat(b, time.RFC3339)
 		return append(b, '"')
 	})
 }
